@@ -125,7 +125,8 @@ def canon_cmp(v):
     while v[0] == "unop" and v[1] == "Not":
         v, neg = v[2], not neg
     if v[0] != "binop" or v[1] not in ("Eq", "Ne", "Lt", "Le", "Gt", "Ge"):
-        return None
+        # any other boolean term: the term itself, with the negations peeled off (`!x` assumed false means x assumed true)
+        return ("bool:%s" % repr(v), neg) if neg else None
     op, a, b = v[1], v[2], v[3]
     if op in ("Eq", "Ne"):
         x, y = sorted([repr(a), repr(b)])
@@ -207,6 +208,9 @@ class Explorer:
                     if val == iv:
                         return [(tg, None, None)]
                 return [(t["otherwise"], None, None)]
+        if k not in known and t.get("dty") == "bool" and ("bool:" + k) in known and known["bool:" + k] in (0, 1):
+            known = dict(known)
+            known[k] = known["bool:" + k]
         if k in known:
             iv = known[k]
             for val, tg in t["targets"]:
